@@ -19,15 +19,16 @@ type Explorer struct {
 	Shard      int
 	NShard     int
 	// statistics
-	Executions  int64
-	Transitions int64
-	TreeNodes   int64
-	DoneBound   int // highest preemption bound completely explored (-1 = none)
-	Capped      bool
-	Unstable    int64
-	Horizons    int64
-	MaxPoints   int
-	OnFail      func(choices []int, res *Result, what string)
+	Executions   int64
+	Transitions  int64
+	TreeNodes    int64
+	DoneBound    int // highest preemption bound completely explored (-1 = none)
+	Capped       bool
+	Unstable     int64
+	UnstableWhy  []string // first few divergence messages
+	Horizons     int64
+	MaxPoints    int
+	OnFail       func(choices []int, res *Result, what string)
 	RecheckEvery int64
 	PreemptOnly  bool // charge only preemptions (CHESS); default charges every deviation (delay bounding)
 }
@@ -93,12 +94,18 @@ func (x *Explorer) Run() {
 			}
 			if res.Diverged != "" {
 				x.Unstable++
+				if len(x.UnstableWhy) < 3 {
+					x.UnstableWhy = append(x.UnstableWhy, fmt.Sprintf("prefix %v: %s", pre, res.Diverged))
+				}
 				continue
 			}
 			if x.Executions%x.RecheckEvery == 1 {
 				r2 := Execute(x.Body, choicesOf(res), x.MaxSteps, false, nil)
 				if sig(r2) != sig(res) {
 					x.Unstable++
+					if len(x.UnstableWhy) < 3 {
+						x.UnstableWhy = append(x.UnstableWhy, fmt.Sprintf("re-execution of %v observed a different run", choicesOf(res)))
+					}
 					continue
 				}
 			}
